@@ -206,7 +206,7 @@ def dump(dt):
 class C19(Prop):
     id = 'C19'
     extracted = True      # JSON description of the types regenerated from the current source (Extracted/EquivC19.lean)
-    quick_cases = 2500
+    quick_cases = 5000
     thorough_cases = 40000
     quick_budget_s = 50
     rule = ('json: type trees to depth 3 over all atomic types, decimals, arrays, maps, structs with nullability and metadata '
